@@ -146,6 +146,7 @@ class Skeleton:
 
     def __init__(self, case):
         files = case["files"]
+        self.mapped = set(((case.get("config") or {}).get("typeMappings") or {}))   # names rendered through a mapping
         self.paths = sorted(files, key=lambda q: q.split("/"))      # PathBuf order: component-wise
         cmds, evs, tys, pays = set(), set(), set(), set()
         self.bodies = []          # body id -> (path, item)
@@ -403,6 +404,42 @@ def add_ties(rng, items, files, cmd_files, names):
                                              "params": [{"name": "r%d" % i, "ty": P(n)} for i, n in enumerate(roots)], "ret": None, "body": []})
 
 
+# ---- configuration collections: a type_mappings table with several entries and OVERLAPPING keys (the
+# bare name and a module-qualified spelling with different targets, a case variant, a prefix), the sources
+# using both spellings; optionally a mapping for a type the project itself defines; a list-valued setting
+EXTERNAL = [("ExtId", "legacy"), ("Stamp", "chrono"), ("Blob", "store"), ("Money", "bank::units")]
+TARGETS = ["string", "number", "boolean"]
+
+
+def add_mappings(rng, items, files, cmd_files, names):
+    tm = {"PathBuf": "string", "Decimal": "number", "Uuid4": "string"}
+    fields = []
+    for k, (bare, mod) in enumerate(rng.sample(EXTERNAL, rng.randint(2, 3))):
+        t = rng.sample(TARGETS, 3)
+        qual = mod + "::" + bare
+        tm[bare], tm[qual] = t[0], t[1]
+        tm[bare.upper()] = t[2]
+        tm[bare[:3]] = t[2]
+        if rng.random() < 0.5:
+            tm["other::" + bare] = t[2]
+        segs = mod.split("::")
+        wrap = [lambda x: x, lambda x: P("Option", x), lambda x: P("Vec", x), lambda x: P("HashMap", P("String"), x)]
+        fields.append({"name": "plain_%d" % k, "ty": rng.choice(wrap)(P(bare)), "serde": [], "validate": []})
+        fields.append({"name": "qualified_%d" % k, "ty": rng.choice(wrap)(P(bare, segs=segs)), "serde": [], "validate": []})
+    rng.shuffle(fields)
+    rec = "MappedRec%d" % rng.randint(0, 9)
+    items[rng.choice(files)].append({"kind": "struct", "name": rec, "derives": ["Serialize", "Deserialize"], "serde": [], "fields": fields})
+    first = fields[0]["ty"]
+    items[rng.choice(cmd_files)].append({"kind": "fn", "name": "use_mapped", "attrs": [["tauri", "command"]], "async": False, "vis": "pub",
+                                         "params": [{"name": "key", "ty": first}, {"name": "other_key", "ty": fields[-1]["ty"]}],
+                                         "ret": P(rec), "body": []})
+    if rng.random() < 0.4:
+        tm[rng.choice(names)] = rng.choice(TARGETS)       # a type the project defines (and keeps declaring)
+    keys = list(tm)
+    rng.shuffle(keys)
+    return {"typeMappings": {k: tm[k] for k in keys}, "excludePatterns": rng.sample(["**/gen/**", "target", "*.bak", "node_modules", "dist/**"], 3)}
+
+
 def gen_project(rng, shape=None):
     """shape: 'multi' (commands/events/types spread over all files), 'onefile' (a single file),
     'cmd1' (all commands and emit calls in one file, types elsewhere; chain-shaped type graph),
@@ -506,6 +543,7 @@ def gen_project(rng, shape=None):
         items[f].append({"kind": "fn", "name": fname, "attrs": [], "async": False, "vis": "pub",
                          "params": params, "ret": None, "body": body})
     add_ties(rng, items, files, cmd_files, names)
+    config = add_mappings(rng, items, files, cmd_files, names) if rng.random() < 0.6 else {}
     # decoys
     for n in rng.sample(["Hidden", "Internal", "Scratch", "PlainData"], rng.randint(0, 2)):
         f = rng.choice(files)
@@ -520,7 +558,7 @@ def gen_project(rng, shape=None):
         items[f].append({"kind": "raw", "text": helper_text(rng, "prepare_%d" % k, file_vars[f] + ["evt_payload"], names)})
     for f in files:
         rng.shuffle(items[f])
-    case = {"files": items, "config": {}}
+    case = {"files": items, "config": config}
     if shape == "dup":
         sk = Skeleton(case)
         structs = [(rel, it) for rel in files for it in items[rel] if it["kind"] == "struct" and is_serde(it)
